@@ -36,7 +36,9 @@ static void dump_table(const ST& t, const std::string& path){
 }
 
 // returns a heap table that is never destroyed when construction fails half way (the library's destructor is C07's subject)
-static ST* build_from_file(const std::string& path){
+// write_key is offered every 'aux' line of the case in order; a key it refuses (exception) is recorded as <hexkey>:R when
+// the message names a reserved keyword, <hexkey>:O otherwise, and the table is built from the remaining ones
+static ST* build_from_file(const std::string& path, std::vector<std::string>* refused=NULL){
   std::ifstream in(path); std::string line;
   std::vector<uint32_t> ord; std::vector<std::vector<double>> kn; std::vector<float> co;
   std::vector<double> ext, per; bool ext_none=false, have_ext=false, have_per=false;
@@ -56,7 +58,13 @@ static ST* build_from_file(const std::string& path){
   if(have_ext) for(uint32_t i=0;i<2*nd && i<ext.size();i++) t->extents[0][i]=ext[i];
   if(ext_none){ t->deallocate(t->extents[0],2*nd); t->deallocate(t->extents,nd); t->extents=NULL; }
   if(have_per){ t->periods=t->template allocate<double>(nd); for(uint32_t i=0;i<nd;i++) t->periods[i]= i<per.size()?per[i]:0.0; }
-  for(auto& kv: aux) t->write_key(kv.first.c_str(), kv.second);
+  for(auto& kv: aux){
+    if(!refused){ t->write_key(kv.first.c_str(), kv.second); continue; }
+    try{ t->write_key(kv.first.c_str(), kv.second); }
+    catch(std::exception& e){
+      std::string h=hexstr(kv.first.c_str()); if(h.empty()) h="-";
+      refused->push_back(h+(std::string(e.what()).find("reserved name")!=std::string::npos?":R":":O")); }
+  }
   return t;
 }
 
@@ -99,7 +107,9 @@ static int mode_w(const char* list){
     std::string id=w[0], tf=w[1], pre=w[2];
     std::ostringstream st; st<<id;
     try{
-      ST* t=build_from_file(tf);
+      std::vector<std::string> refused;
+      ST* t=build_from_file(tf,&refused);
+      st<<" refused="; if(refused.empty()) st<<"-"; for(size_t i=0;i<refused.size();i++) st<<(i?",":"")<<refused[i];
       dump_table(*t, pre+".orig");
       t->write_fits(pre+".file.fits");
       { auto r=t->write_fits_mem(); spit(pre+".mem.fits", r.first, r.second);
